@@ -4,16 +4,24 @@ from .util import build, CLASSES
 
 
 def impl(case):
-    cls = CLASSES[case.get("cls", "nm")]
     index = {}
-    for t in case["trees"]:
-        build(t, cls, None, index)
+    if case.get("cls") == "links":
+        from .util import build_links
+        labels = {}
+        for t in case["trees"]:
+            build_links(t, index, labels)
+        lab = lambda x: labels[id(x)]
+    else:
+        cls = CLASSES[case.get("cls", "nm")]
+        for t in case["trees"]:
+            build(t, cls, None, index)
+        lab = lambda x: x.label
     w = Walker()
     out = []
     for a, b in case["pairs"]:
         try:
             up, common, down = w.walk(index[a], index[b])
-            out.append({"up": [x.label for x in up], "common": common.label, "down": [x.label for x in down]})
+            out.append({"up": [lab(x) for x in up], "common": lab(common), "down": [lab(x) for x in down]})
         except WalkError:
             out.append("WalkError")
         except Exception as e:
